@@ -135,6 +135,14 @@ def normalize_index(idx, shape):
     if not isinstance(idx, tuple):
         idx = (idx,)
     idx = replace_ellipsis(len(shape), idx)
+    # a boolean mask with more than one dimension indexes like the tuple of its nonzero indices
+    expanded = []
+    for i in idx:
+        if isinstance(i, (np.ndarray, list)) and np.asanyarray(i).dtype == bool and np.ndim(i) > 1:
+            expanded.extend(np.nonzero(i))
+        else:
+            expanded.append(i)
+    idx = tuple(expanded)
     n_sliced_dims = 0
     for i in idx:
         if hasattr(i, "ndim") and i.ndim >= 1:
